@@ -329,6 +329,8 @@ pub fn envelope(prop: &str, seed: u64, index: u64, v: &Violation) -> Value {
 pub fn replay_any(prop: &dyn Property, ctx: &Ctx, scn: &Value) -> Result<Option<Violation>, String> {
     if scn["engine"].as_str() == Some("simbin") {
         crate::simbin::replay(prop.id(), ctx, scn)
+    } else if scn["engine"].as_str() == Some("simmiri") {
+        crate::simmiri::replay(ctx, scn)
     } else {
         prop.replay(ctx, scn)
     }
@@ -337,6 +339,8 @@ pub fn replay_any(prop: &dyn Property, ctx: &Ctx, scn: &Value) -> Result<Option<
 pub fn shrink_any(prop: &dyn Property, ctx: &Ctx, scn: &Value) -> Vec<Value> {
     if scn["engine"].as_str() == Some("simbin") {
         crate::simbin::shrink(scn)
+    } else if scn["engine"].as_str() == Some("simmiri") {
+        vec![]
     } else {
         prop.shrink(ctx, scn)
     }
@@ -452,6 +456,28 @@ pub fn check(prop: &dyn Property, ctx: &Ctx) -> CheckOutcome {
             if bin_budget > 0 {
                 say!("[{}] note: SOLSTAT_BIN not set, the simbin engine is skipped", id);
             }
+        }
+    }
+    if crate::simmiri::applies(id) {
+        let m = crate::simmiri::stage(id, ctx);
+        if m.evaluations > 0 || !m.violations.is_empty() || m.harness_error.is_some() {
+            engines.push("simmiri".to_string());
+        }
+        agg.evaluations += m.evaluations;
+        agg.steps += m.steps;
+        agg.nontrivial.extend(m.nontrivial);
+        agg.interleavings.extend(m.interleavings);
+        for (k, v) in m.faults {
+            *agg.faults.entry(k).or_insert(0) += v;
+        }
+        for (k, v) in m.extra {
+            *agg.extra.entry(k).or_insert(0) += v;
+        }
+        for v in m.violations {
+            agg.violations.push((2_000_000_000, v));
+        }
+        if let Some(e) = m.harness_error {
+            agg.harness_errors.push(e);
         }
     }
     let mut exhaustive = false;
